@@ -188,7 +188,11 @@ pub fn impl_answer(case: &Case) -> String {
                         }
                         let (line, col) = e.pos;
                         let n_lines = lines.len().max(1) as isize;
-                        if line < 1 || line > n_lines {
+                        if (line, col) == (0, 0) {
+                            // the implementation's marker for "no position known" (`pos: (0, 0)` for
+                            // its UNKNOWN error, `pos_for(..).unwrap_or_default()` for errors on
+                            // placeholder nodes): not a position beyond the source
+                        } else if line < 1 || line > n_lines {
                             problem = format!("line-{line}-of-{n_lines}");
                         } else {
                             let len = lines.get((line - 1) as usize).map_or(0, |l| l.chars().count()) as isize;
@@ -260,7 +264,22 @@ pub fn impl_answer(case: &Case) -> String {
                         }
                     }
                     use std::net::{IpAddr, Ipv4Addr, Ipv6Addr, SocketAddr};
+                    // 128-bit integers: signed ones are ints, unsigned ones uints, or the conversion fails
+                    fn wide<T: serde::Serialize>(x: &T, want: Option<cel_interpreter::Value>) -> String {
+                        match cel_interpreter::to_value(x) {
+                            Err(_) => "(serdehr same)".to_string(),
+                            Ok(v) if Some(&v) == want.as_ref() && want.as_ref().map(std::mem::discriminant) == Some(std::mem::discriminant(&v)) => "(serdehr same)".to_string(),
+                            Ok(v) => format!("(serdehr differs x{} x{})", crate::sx::hex(format!("{v:?}").as_bytes()), crate::sx::hex(format!("{want:?}").as_bytes())),
+                        }
+                    }
                     match idx {
+                        9 => wide(&42i128, Some(cel_interpreter::Value::Int(42))),
+                        10 => wide(&-5i128, Some(cel_interpreter::Value::Int(-5))),
+                        11 => wide(&(1u128 << 70), None),
+                        12 => wide(&7u128, Some(cel_interpreter::Value::UInt(7))),
+                        13 => wide(&(i64::MAX as i128 + 1), None),
+                        14 => wide(&(1i128 << 63), None),
+                        15 => wide(&(u64::MAX as u128), Some(cel_interpreter::Value::UInt(u64::MAX))),
                         0 => both(&Ipv4Addr::new(192, 168, 0, 10)),
                         1 => both(&Ipv6Addr::LOCALHOST),
                         2 => both(&IpAddr::V4(Ipv4Addr::new(10, 0, 0, 1))),
